@@ -24,6 +24,11 @@ func (processor *Processor) Process(data []byte, context *base.DataProcessorCont
 	if ok && setting.GetMaskingPattern() != "" {
 		logger.Debugln("Has pattern")
 		newData, err := processor.decryptor.Process(data, context)
+		if (err != nil || bytes.Equal(newData, data)) && !processor.decryptor.MatchDataSignature(data) {
+			// bytes that only resemble a container header are not a protected value: leave them as they are
+			logger.Debugln("Not an envelope, left as is")
+			return data, nil
+		}
 		if err != nil || bytes.Equal(newData, data) {
 			logger.Debugln("Mask data")
 			return []byte(setting.GetMaskingPattern()), nil
